@@ -294,6 +294,7 @@ class C09(Check):
     def must_fire(self):
         W = "_update_parameters_and_initial_conditions"
         return [
+            Variant("fixed-y0-handed-to-row-worker", SCAN, "steady_state", "integrator=integrator, y0=None)", "integrator=integrator, y0=y0)", expect="P5|", quick=True),
             Variant("reintroduce-shared-model", SCAN, W, "    model = copy.deepcopy(model)\n", "", expect="P1|scan.py|_update_parameters_and_initial_conditions|row-isolation", quick=True),
             Variant("copy-after-mutation", SCAN, W, "    model = copy.deepcopy(model)\n    pd = pars.to_dict()\n", "    pd = pars.to_dict()\n", expect="P1|"),
             Variant("scan-bypasses-wrapper", SCAN, "time_course", "partial(_update_parameters_and_initial_conditions, fn=partial(worker, time_points=time_points, integrator=integrator, y0=None), model=model)",
